@@ -24,7 +24,7 @@ RULE = ("one run = project with 1-6 sites with previous content (absent / same /
         "hand-styled or tool-styled), several sites per test, loops, sub-snapshots, optional raising statements, executed as "
         "session(create,fix) then read-back; reached = recorded by the first session; distinct = (operation, placement, previous-shape, "
         "new-shape, formatter, driver) tuples; non-trivial = at least one reached site read back")
-RULE += " Dimensions added while testing against seeded changes: twin files, overlap edits, multi-file plugin sessions."
+RULE += " Dimensions added while testing against seeded changes: twin files, overlap edits, multi-file plugin sessions; files that import HasRepr / external only below module level plus a value that needs the name."
 ASSUMPTIONS = c01.ASSUMPTIONS + ["sites whose previous content contains Is(...) are exempt from the read-back clause (user-controlled parts are never repaired)"]
 REAL_VS_STUB = c01.REAL_VS_STUB
 
